@@ -137,6 +137,7 @@ type Config struct {
 	Known      map[string]bool // known-finding signatures (property|rule|site)
 	ReplayLeaf int           // number of leaf paths to re-execute straight-line
 	Quiet      bool
+	MemLimit   uint64 // heap bytes above which the search stops expanding (default 18 GiB); reported as a cap
 }
 
 type KnownHit struct {
@@ -266,6 +267,9 @@ func Run(sc Scenario, cfg Config) *Result {
 	}
 	if cfg.Confirm == 0 {
 		cfg.Confirm = 10 * time.Second
+	}
+	if cfg.MemLimit == 0 {
+		cfg.MemLimit = 18 << 30
 	}
 	res := &Result{Scenario: sc.ID(), Counters: map[string]int{}, OpCounts: map[string]int{}, Pruned: map[string]int{}, Known: map[string]*KnownHit{}, Exhaustive: true}
 	obs := map[string]bool{}
@@ -474,6 +478,16 @@ func Run(sc Scenario, cfg Config) *Result {
 				n := &node{key: k, parent: t.n, op: t.op, depth: depth + 1, seed: t.n.seed, state: r.step.Next}
 				seen[k] = n
 				next = append(next, n)
+			}
+			if !stop {
+				// frontier states hold complete KV snapshots: stop before the machine runs out of memory
+				var ms runtime.MemStats
+				runtime.ReadMemStats(&ms)
+				if ms.HeapAlloc > cfg.MemLimit {
+					res.Exhaustive = false
+					res.CapHit = fmt.Sprintf("memory: heap %d MiB > limit %d MiB at depth %d (%d/%d transitions of that level done)", ms.HeapAlloc>>20, cfg.MemLimit>>20, depth+1, end, len(all))
+					stop = true
+				}
 			}
 			if cfg.Deadline > 0 && time.Since(start) > cfg.Deadline && !stop {
 				if off+chunk < len(all) {
